@@ -3,8 +3,16 @@ pub struct DecodeError { pub c: u8 }
 pub mod base64 { pub use crate::base64_decode as decode; }
 #[verifier::external_body]
 pub fn base64_decode(s: &String) -> (r: Result<Vec<u8>, DecodeError>) { unimplemented!() }
+// hex text <-> bytes (A-hex: to_hex / from_hex are mutually inverse on what to_hex produces)
+pub uninterp spec fn spec_hex_bytes(s: String) -> Option<Seq<u8>>;
 #[verifier::external_body]
-pub fn from_hex(s: &String) -> (r: Result<Vec<u8>, DecodeError>) { unimplemented!() }
+pub fn from_hex(s: &String) -> (r: Result<Vec<u8>, DecodeError>)
+    ensures r matches Ok(v) ==> spec_hex_bytes(*s) == Some(v@), spec_hex_bytes(*s) is Some ==> r is Ok { unimplemented!() }
+#[verifier::external_body]
+pub fn vf_to_hex(b: &[u8]) -> (r: String) ensures spec_hex_bytes(r) == Some(b@) { unimplemented!() }
+// `thread_rng().gen::<[u8; N]>()`
+#[verifier::external_body]
+pub fn vf_random_bytes<const N: usize>() -> (r: [u8; N]) { unimplemented!() }
 pub struct Value { pub v: u8 }
 pub mod serde_json { pub use crate::json_from_str as from_str; }
 #[verifier::external_body]
@@ -52,6 +60,11 @@ impl LessSafeKey {
         ensures (r is Ok) == aead_open_ok(self.k@, nonce.n@, old(in_out)@),
             r is Ok ==> final(in_out)@.len() == old(in_out)@.len() && old(in_out)@.len() >= 16
                 && final(in_out)@.subrange(0, old(in_out)@.len() - 16) == aead_plain(self.k@, nonce.n@, old(in_out)@),
+    { unimplemented!() }
+    // seal: buffer := ciphertext ‖ tag; A-aead: what seal produces opens, under the same key and nonce, to what was sealed
+    #[verifier::external_body]
+    pub fn seal_in_place_append_tag(&self, nonce: Nonce, aad: Aad, in_out: &mut Vec<u8>) -> (r: Result<(), Unspecified>)
+        ensures r is Ok ==> aead_open_ok(self.k@, nonce.n@, final(in_out)@) && aead_plain(self.k@, nonce.n@, final(in_out)@) == old(in_out)@
     { unimplemented!() }
 }
 impl Nonce {
